@@ -27,14 +27,29 @@ CFGS = [
 
 
 def cfg_name(c):
-    fam, ctl, a, m, eol = c
-    return "%s.%s.%d.%d.%s" % (fam[3:], ctl[3:], a, m, eol)
+    """fam.ctl.A.M.[lazy-]eol[@7-3-5]  (optional 6th tuple field: "", "lazy", "init", "lazy+init")"""
+    fam, ctl, a, m, eol = c[:5]
+    x = c[5] if len(c) > 5 else ""
+    return "%s.%s.%d.%d.%s%s%s" % (fam[3:], ctl[3:], a, m, "lazy-" if "lazy" in x else "", eol, "@7-3-5" if "init" in x else "")
+
+
+def cfg_of_name(name):
+    f, c, a, m, e = name.split(".")
+    x = []
+    if e.startswith("lazy-"):
+        e = e[5:]
+        x.append("lazy")
+    if e.endswith("@7-3-5"):
+        e = e[:-6]
+        x.append("init")
+    return ("act" + f, "ctl" + c, int(a), int(m), e, "+".join(x))
 
 
 def cfg_cpp(c, g):
-    fam, ctl, a, m, eol = c
-    return "vh::reg< g%d::G, vh::%s, vh::%s, apply_mode::%s, rewind_mode::%s, eol::%s >( %d );" % (
-        g.gid, fam, ctl, "action" if a else "nothing", "required" if m else "optional", eol, g.gid)
+    fam, ctl, a, m, eol = c[:5]
+    x = c[5] if len(c) > 5 else ""
+    return "vh::reg< g%d::G, vh::%s, vh::%s, apply_mode::%s, rewind_mode::%s, eol::%s, tracking_mode::%s, %d >( %d );" % (
+        g.gid, fam, ctl, "action" if a else "nothing", "required" if m else "optional", eol, "lazy" if "lazy" in x else "eager", 1 if "init" in x else 0, g.gid)
 
 
 EOL_CFGS = [("act1", "ctl2", 1, 1, e) for e in ("lf", "cr", "crlf", "lf_crlf", "cr_crlf")]
@@ -100,8 +115,12 @@ class Chunk:
     pass
 
 
-def plan(tier, seed, want_tags=None, nrandom=None, maxlen=None):
-    grams = corpus.systematic(tier)
+def plan(tier, seed, want_tags=None, nrandom=None, maxlen=None, extra=None, choose=None, base=True):
+    """extra(tier, seed, start_gid) -> more Grams (property-specific families);
+    choose(g, k, tier) -> configurations for grammar g (default choose_cfgs); base=False drops the shared corpus"""
+    grams = corpus.systematic(tier) if base else []
+    if not base:
+        nrandom = 0
     if nrandom is None:
         nrandom = 24 if tier == "quick" else 150
     grams += corpus.random_grammars(seed, nrandom, start_gid=len(grams))
@@ -109,9 +128,14 @@ def plan(tier, seed, want_tags=None, nrandom=None, maxlen=None):
     grams += corpus.atom_grammars(tier, start_gid=len(grams))
     if want_tags:
         grams = [g for g in grams if g.tags & set(want_tags)]
+    if extra:
+        more = extra(tier, seed, 100000)
+        for i, g in enumerate(more):
+            g.gid = 100000 + i
+        grams += more
     if maxlen is None:
         maxlen = 4 if tier == "quick" else 5
-    cfgs_of = {g.gid: choose_cfgs(g, i, tier) for i, g in enumerate(grams)}
+    cfgs_of = {g.gid: ((choose and choose(g, i, tier)) or choose_cfgs(g, i, tier)) for i, g in enumerate(grams)}
     per_tu = 14 if tier == "quick" else 20
     chunks = [grams[i:i + per_tu] for i in range(0, len(grams), per_tu)]
     return grams, cfgs_of, chunks, maxlen
